@@ -40,6 +40,32 @@ Fixpoint run {A} (f : list N) (p : prog A) : res A :=
   | Len k => run f (k (lenN f))
   end.
 
+(* the same interpreter with the file length computed once (used by the extracted entry points) *)
+Definition read_block_n (n : N) (f : list N) (off size : N) : res (list N) :=
+  if (off + size + 4 <=? n) then
+    let blk := subN off (size + 4) f in
+    if check_block blk then Ok (firstn (N.to_nat size) blk) else Err ECorrupt
+  else Err EOob.
+Definition read_raw_n (n : N) (f : list N) (off size : N) : res (list N) :=
+  if (off + size <=? n) then Ok (subN off size f) else Err EOob.
+Fixpoint run_n {A} (n : N) (f : list N) (p : prog A) : res A :=
+  match p with
+  | Ret a => Ok a
+  | Fail e => Err e
+  | RdBlock off size k => match read_block_n n f off size with Ok d => run_n n f (k d) | Err e => Err e end
+  | RdRaw off size k => match read_raw_n n f off size with Ok d => run_n n f (k d) | Err e => Err e end
+  | Len k => run_n n f (k n)
+  end.
+Lemma run_n_run {A} f (p : prog A) : run_n (lenN f) f p = run f p.
+Proof.
+  induction p as [a|e|off size k IH|off size k IH|k IH]; cbn [run run_n]; try reflexivity.
+  - change (read_block_n (lenN f) f off size) with (read_block f off size).
+    destruct (read_block f off size); [apply IH|reflexivity].
+  - change (read_raw_n (lenN f) f off size) with (read_raw f off size).
+    destruct (read_raw f off size); [apply IH|reflexivity].
+  - apply IH.
+Qed.
+
 Lemma run_pbind {A B} f (p : prog A) (g : A -> prog B) :
   run f (pbind p g) = match run f p with Ok a => run f (g a) | Err e => Err e end.
 Proof.
